@@ -428,6 +428,15 @@ func (c *cfgT) body(prop string) {
 		ctxs[i], cancels[i] = context.WithCancel(context.Background())
 	}
 	bigVal := strings.Repeat("x", 300)
+	// cancelOnSubmit: the cancelling thread exists from the start (low thread id: it runs as soon as its victim blocks) and
+	// waits until the victim is about to submit the chosen op
+	cancelGate := make(chan struct{}, 1)
+	if c.canceller >= 0 && c.cancelOnSubmit {
+		vs.GoNamed("canceller", func() {
+			vs.Recv[struct{}](cancelGate)
+			cancels[c.canceller]()
+		})
+	}
 	for i, ops := range c.callers {
 		i, ops := i, ops
 		vs.GoNamed(fmt.Sprintf("caller%d", i), func() {
@@ -446,7 +455,7 @@ func (c *cfgT) body(prop string) {
 					vs.Sleep(lateStart/2 - vs.Clock())
 				}
 				if i == c.canceller && c.cancelOnSubmit && k == c.cancelAtOp {
-					vs.GoNamed("canceller", func() { cancels[c.canceller]() })
+					vs.Send(cancelGate, struct{}{})
 				}
 				ctx := context.WithValue(ctxs[i], labelKey{}, label)
 				r := result{label: label, op: op, start: vs.Clock()}
